@@ -158,3 +158,31 @@ package parser
 //@ ensures[C01.infix.power] result != nil ==> uf("parsedAt", int, result.(*ast.Infix).right) == ite(old(hasprec(p.curToken.Type)), old(prec(p.curToken.Type)), LOWEST)
 
 //@ scan[C09.globals.parser] C09 pkgglobals github.com/risor-io/risor/parser:
+
+// ---- C14: import paths ----------------------------------------------------------------------------------------
+// validateImportPath accepts exactly identifiers separated by single slashes (optionally wrapped in quote
+// characters, which it strips before matching). Consequences used by the importer: an accepted path has no
+// "..", no backslash, no colon, no NUL and does not start with a slash.
+// Assumed: regexp.MustCompile(lit).MatchString is membership in the translated regular language; strings.Trim.
+//@ func validateImportPath
+//@ props C14
+//@ modifies nothing
+//@ ensures[C14.path.shape] result == nil ==> inre(path, "^\"*[a-zA-Z_][a-zA-Z0-9_]*(/[a-zA-Z_][a-zA-Z0-9_]*)*\"*$")
+//@ ensures[C14.path.nodotdot] result == nil ==> !inre(path, "\\.\\.")
+//@ ensures[C14.path.nobackslash] result == nil ==> !inre(path, "\\\\")
+//@ ensures[C14.path.nocolon] result == nil ==> !inre(path, ":")
+//@ ensures[C14.path.nonul] result == nil ==> !inre(path, "\\x00")
+//@ ensures[C14.path.relative] result == nil ==> !inre(path, "^/")
+//@ ensures[C14.path.noempty] result == nil ==> !inre(path, "//") && path != ""
+//@ ensures[C14.path.accept] inre(path, "^[a-zA-Z_][a-zA-Z0-9_]*(/[a-zA-Z_][a-zA-Z0-9_]*)*$") ==> result == nil
+
+//@ spec importPathOK(s) = inre(s, "^\"*[a-zA-Z_][a-zA-Z0-9_]*(/[a-zA-Z_][a-zA-Z0-9_]*)*\"*$")
+
+// Every Import node the parser builds carries a path that passed validateImportPath (both the identifier and
+// the string form).
+//@ func (*Parser).parseImport
+//@ props C14
+//@ havoc nextToken expectPeek setTokenError peekError
+//@ nocontract parseString
+//@ requires p != nil
+//@ ensures[C14.import.validated] result != nil ==> typeof(result) == *ast.Import && ref(result) != nil && result.(*ast.Import).path != nil && importPathOK(result.(*ast.Import).path.value)
